@@ -14,6 +14,12 @@ ENGINES = [
 NOTES = "Property-based testing and fuzzing only. See DESIGN.md. Known findings: /verif/known_findings.json."
 NOT_APPLICABLE = {}
 CHECKS = {
+    "C06": {
+        "text": "Enumerated matrix inside generated surroundings: 11 consuming positions x 5 sources of null x 4 types for the reject direction, 8 positions x 4 flows x 4 types for the accept direction, each planted at one of 12 statement positions; ~8k cases per quick run, verdict oracle in both directions, matrix counts in the evidence.",
+        "design_ref": "DESIGN.md section 6 C06",
+        "note": "`x ? d` only with a variable on the left; field reads through nullable receivers are left to C04; unexpected verdicts are re-run 10x (C12). One open finding (if-expression with a None branch into :=, field := and method arguments) redirects 6 cells.",
+        "technique": "property-based testing: position x source matrix with a verdict oracle in both directions (Hypothesis)",
+    },
     "C05": {
         "text": "Targeted generation: a fully annotated world plus one generated target (function/method/constructor signature, annotated definition, declared return type) and one use planted at one of 12 positions; 2/7 conforming (must be accepted), 5/7 with one single-point non-conforming mutation (must be rejected with diagnostics). ~11k cases per quick run; the kind x position x mutation histogram is part of the evidence.",
         "design_ref": "DESIGN.md section 6 C05",
